@@ -132,6 +132,14 @@ void Ctx::onM2M(const void* symb, long symbIndex, const Coord& symbCoord, long l
     if (topTreeCall) {
         for (long k = 0; k < n; ++k) if (codes[k] < 0 || codes[k] >= 8) { addViolation("argcheck", "M2M.top.code-range", "child code " + std::to_string(codes[k])); return; }
         if (!distinctCodes(codes, n)) addViolation("argcheck", "M2M.top.duplicate-code", "duplicate child position code");
+        if (view) for (long k = 0; k < n; ++k) {
+            // the first top-tree step hands over the real level-1 cells of the tree: their codes must be their octants
+            const int ci = TreeView::find(view->byMult, children[size_t(k)]);
+            if (ci < 0) continue;
+            const CellRec& c = view->cells[size_t(ci)];
+            if (c.level == 1 && codes[k] != RefGrid::codeChild(c.coord))
+                addViolation("argcheck", "M2M.top.child-code", "level-1 cell " + cstr(c.coord) + " handed to the top tree with position code " + std::to_string(codes[k]));
+        }
         return;
     }
     const TreeView& v = *view;
@@ -169,6 +177,13 @@ void Ctx::onL2L(const void* symb, long symbIndex, const Coord& symbCoord, long l
     if (topTreeCall) {
         for (long k = 0; k < n; ++k) if (codes[k] < 0 || codes[k] >= 8) { addViolation("argcheck", "L2L.top.code-range", "child code " + std::to_string(codes[k])); return; }
         if (!distinctCodes(codes, n)) addViolation("argcheck", "L2L.top.duplicate-code", "duplicate child position code");
+        if (view) for (long k = 0; k < n; ++k) {
+            const int ci = TreeView::find(view->byLocal, children[size_t(k)]);
+            if (ci < 0) continue;
+            const CellRec& c = view->cells[size_t(ci)];
+            if (c.level == 1 && codes[k] != RefGrid::codeChild(c.coord))
+                addViolation("argcheck", "L2L.top.child-code", "level-1 cell " + cstr(c.coord) + " handed to the top tree with position code " + std::to_string(codes[k]));
+        }
         return;
     }
     const TreeView& v = *view;
